@@ -226,9 +226,10 @@ void Interpret::interp(ASTNode& n) {
                     if (tr == PTRef_Undef)
                         notify_formatted(true, "assertion returns an unknown sort");
                     else {
-                        assertions.push(tr);
                         try {
                             main_solver->insertFormula(tr);
+                            // only an accepted assertion is recorded (the indices are used by get-interpolants)
+                            assertions.push(tr);
                             notify_success();
                         } catch (ApiException const & e) {
                             notify_formatted(true, e.what());
@@ -610,6 +611,9 @@ void Interpret::pop(int n) {
     if (config.isIncremental()) {
         if (n < 0) {
             notify_formatted(true, "Incorrect pop command, value is negative.");
+        } else if (static_cast<std::size_t>(n) > main_solver->getAssertionLevel()) {
+            // reject the whole command: popping as many levels as exist would change the state of a failed command
+            notify_formatted(true, "Attempt to pop beyond the top of the stack");
         } else {
             bool success = true;
             while (n-- and success) {
